@@ -262,6 +262,15 @@ func (n *Node) signal(sig os.Signal, allowOverride bool) {
 	}
 }
 
+// isStopping reports whether the step has been marked canceled while its
+// process had been started and the step has not finished yet.
+func (n *Node) isStopping() bool {
+	n.mu.RLock()
+	defer n.mu.RUnlock()
+	return n.data.State.Status == NodeStatusCancel &&
+		n.data.State.FinishedAt.IsZero() && n.cmd != nil
+}
+
 func (n *Node) cancel() {
 	n.mu.Lock()
 	defer n.mu.Unlock()
